@@ -25,7 +25,7 @@ RULE = ("cases = curated + random-grammar assignments whose output format has >=
 
 PLAN = {
     "quick": dict(shards=12, fmt=8, inp=2, rnd=1300, draws=2, jit_every=3, lattice=240),
-    "thorough": dict(shards=16, fmt=60, inp=3, rnd=20000, draws=4, jit_every=2, lattice=16000),
+    "thorough": dict(shards=16, fmt=60, inp=3, rnd=20000, draws=4, jit_every=2, lattice=4800),
 }
 
 
@@ -146,12 +146,12 @@ def shard(rec, tier, index, n_shards):
             continue
         rec.count("lattice_cases")
         do(case)
-    for case in engine.wide_cases(rng, 8 if tier == "quick" else 300):
+    for case in engine.wide_cases(rng, 8 if tier == "quick" else 60):
         if "s" not in case.formats[case.target[1]]:
             continue
         rec.count("wide_cases")
         do(case)
-    for case in engine.high_order_cases(rng, 6 if tier == "quick" else 400):
+    for case in engine.high_order_cases(rng, 6 if tier == "quick" else 60):
         if "s" not in case.formats[case.target[1]]:
             continue
         rec.count("high_order_cases")
